@@ -5,7 +5,7 @@ import os
 
 from .. import AnalysisError
 from ..flow import show, walk_term
-from ..report import ob_ok, ob_fail, VERIF
+from ..report import ob_ok, ob_fail, ob_undecided, VERIF
 from .common import (is_call, method_call, node_attr, edge_attr, elem_of, strip_wrappers, guards_of, enclosing_loops,
                      need, strip_sites, callee_name)
 
@@ -325,8 +325,23 @@ def prov_node_attributes(repo, tier="quick"):
     obs = []
     oid = "PROV.node-attributes"
     parses = fl.calls_to("dialects:_parse_dialect_string")
-    need(len(parses) == 1, "expected one annotation parse per node in read_cgsmiles, found %d" % len(parses), fi)
-    pcall, pnode, ptarget = parses[0]
+    need(len(parses) >= 1, "anchor vanished: read_cgsmiles no longer parses node annotations", fi)
+
+    def is_token_text(a):
+        if a and a[0] == "sub" and a[2] == ("slice", ("const", 2), ("const", -1), None):
+            m_ = method_call(a[1], "group")
+            if m_ and m_[2] == (("const", 0),):
+                e_ = elem_of(m_[0])
+                return bool(e_ and e_[0] == "elem" and is_call(strip_wrappers(e_[1]), "re.finditer") is not None)
+        return False
+    good = [p for p in parses if is_token_text(fl.canon(p[0], p[1])[3][0] if fl.canon(p[0], p[1])[3] else None)]
+    for p in parses:
+        if p not in good:
+            ct = fl.canon(p[0], p[1])
+            obs.append(ob_fail(oid, fi, p[0], construct="annotation parse of %s" % (show(ct[3][0]) if ct[3] else "<nothing>"), instance="text:other",
+                               reason="node attributes are (re)built from something other than the node's own token text: annotations written on the node are lost"))
+    need(len(good) == 1, "expected exactly one parse of the node's own token text in read_cgsmiles, found %d" % len(good), fi)
+    pcall, pnode, ptarget = good[0]
     P = fl.canon(pcall, pnode)
     # the parser used is the coarse dialect's
     bound = ptarget.bound
@@ -368,6 +383,20 @@ def prov_node_attributes(repo, tier="quick"):
                     ok = entry is not None and entry[0] == "tuple" and len(entry[1]) == 3 and entry[1][1] == P
                     (obs.append(ob_ok(oid, fi, sub, construct="recipe entry (count, attributes, order)", instance="recipe", reason="multiplied branches repeat the node's own annotations")) if ok else
                      obs.append(ob_fail(oid, fi, sub, construct="recipe entry %s" % show(entry), instance="recipe", reason="the branch recipe does not store this node's attributes")))
+    # the anchor entry written when a branch opens: the attributes parsed for the anchor node (previous iteration)
+    for n in cfg.nodes:
+        if n.kind == "stmt" and isinstance(n.ast, ast.Assign) and isinstance(n.ast.targets[0], ast.Subscript) and isinstance(n.ast.value, ast.List) and \
+                len(n.ast.value.elts) == 1 and isinstance(n.ast.value.elts[0], ast.Tuple) and len(n.ast.value.elts[0].elts) == 3:
+            attr_e = n.ast.value.elts[0].elts[1]
+            t = fl.canon(attr_e, n.id)
+            ok = False
+            if isinstance(attr_e, ast.Name):
+                ds = [d for d in fl.reaching(attr_e.id, n.id) if d.kind != "unbound"]
+                ok = bool(ds) and all(d.kind == "assign" and d.ast is cfg.nodes[pnode].ast for d in ds)
+            (obs.append(ob_ok(oid, fi, n.ast, construct="anchor recipe entry carries the anchor node's parsed attributes", instance="recipe-anchor",
+                              reason="copies of the anchor made by a branch multiplier keep its annotations")) if ok else
+             obs.append(ob_fail(oid, fi, n.ast, construct="anchor recipe entry attributes = %s" % show(t), instance="recipe-anchor",
+                                reason="the anchor's recipe entry does not carry the attributes parsed from the anchor node's own text")))
     # _expand_branch forwards recipe attributes
     eb = repo.function("read_cgsmiles:_expand_branch")
     efl = eb.flow
@@ -459,6 +488,30 @@ def ord_parse_pipeline(repo, tier="quick"):
     ok = any("['kwargs']" in s for s in srcs) and any(s.endswith(".arguments") for s in srcs)
     (obs.append(ob_ok(oid, fi, rets[0].ast, construct="out = {**free keywords, **reserved keys}", instance="merge", reason="free keys are kept verbatim next to the reserved ones")) if ok else
      obs.append(ob_fail(oid, fi, rets[0].ast, construct="result assembled from %s" % srcs, instance="merge", reason="the result does not merge the free keywords with the reserved keys")))
+    # keys and values are taken verbatim from `entry.split(assign token)`
+    verb = {"kw": None, "pos": None}
+    for n in cfg.nodes:
+        if n.kind == "stmt" and isinstance(n.ast, ast.Assign) and isinstance(n.ast.targets[0], ast.Subscript):
+            k = fl.canon(n.ast.targets[0].slice, n.id)
+            v = fl.canon(n.ast.value, n.id)
+            if k[0] == "sub" and method_call(k[1], "split") and k[2] == ("const", 0):
+                verb["kw"] = (n, v == ("sub", k[1], ("const", 1)))
+            elif any(method_call(x, "split") for x in walk_term(k) if isinstance(x, tuple) and x and x[0] == "call"):
+                verb["kw"] = (n, False)
+        if n.kind == "stmt" and isinstance(n.ast, ast.Expr) and isinstance(n.ast.value, ast.Call):
+            ct = fl.canon(n.ast.value, n.id)
+            m = method_call(ct, "append")
+            if m and len(m[2]) == 1 and any(method_call(x, "split") for x in walk_term(m[2][0]) if isinstance(x, tuple) and x and x[0] == "call"):
+                a = m[2][0]
+                verb["pos"] = (n, a[0] == "sub" and method_call(a[1], "split") is not None and a[2] == ("const", 0))
+    for what, label in (("kw", "keyword entries: kwargs[key] = value exactly as split"), ("pos", "positional entries: appended exactly as written")):
+        if verb[what] is None:
+            obs.append(ob_undecided(oid, fi, construct=label, instance="verbatim:" + what, reason="cannot find where %s entries are collected" % what))
+        elif verb[what][1]:
+            obs.append(ob_ok(oid, fi, verb[what][0].ast, construct=label, instance="verbatim:" + what, reason="free keys and values reach the graph unchanged"))
+        else:
+            obs.append(ob_fail(oid, fi, verb[what][0].ast, construct=ast.unparse(verb[what][0].ast), instance="verbatim:" + what,
+                               reason="a key or value is transformed while it is collected: free annotation keys are no longer kept verbatim"))
     # check_and_cast_types: type from the parameter's annotation, isinstance guard, store back under the same name
     cf = repo.function("dialects:check_and_cast_types")
     cfl = cf.flow
@@ -538,6 +591,34 @@ def trip_multiplier(repo, tier="quick"):
                     (obs.append(ob_ok(oid, fi, sub, construct="recipe entry count == node loop count", instance="recipe-count", reason="a multiplied node inside a branch is repeated as often when the branch is expanded")) if okr else
                      obs.append(ob_fail(oid, fi, sub, construct="recipe entry %s" % show(entry), instance="recipe-count",
                                         reason="the branch recipe records another count than the one the node was added with")))
+    # the anchor entry of a branch recipe is repeated once per branch copy
+    for n in cfg.nodes:
+        if n.kind == "stmt" and isinstance(n.ast, ast.Assign) and isinstance(n.ast.targets[0], ast.Subscript) and isinstance(n.ast.value, ast.List) and \
+                len(n.ast.value.elts) == 1 and isinstance(n.ast.value.elts[0], ast.Tuple) and len(n.ast.value.elts[0].elts) == 3:
+            cnt = fl.canon(n.ast.value.elts[0].elts[0], n.id)
+            (obs.append(ob_ok(oid, fi, n.ast, construct="anchor recipe entry count = 1", instance="anchor-count",
+                              reason="a branch multiplier repeats the branch together with one copy of its anchoring node")) if cnt == ("const", 1) else
+             obs.append(ob_fail(oid, fi, n.ast, construct="anchor recipe entry count = %s" % show(cnt), instance="anchor-count",
+                                reason="the anchoring node is repeated %s times per branch copy instead of once" % show(cnt))))
+    # inside the node copy loop the order used for the chain edge is replaced before the next copy
+    chain = None
+    for c2, n2 in fl.calls():
+        if isinstance(c2.func, ast.Attribute) and c2.func.attr == "add_edge" and [l.id for l in enclosing_loops(fi, n2)] == [l.id for l in loops]:
+            kw = [k for k in c2.keywords if k.arg == "order"]
+            if kw and isinstance(kw[0].value, ast.Name) and not (fl.canon(c2.args[0], n2)[0] == "sub"):
+                chain = (c2, n2, kw[0].value.id)
+    if chain is not None:
+        c2, n2, ovar = chain
+        redefs = {d.node for d in fl.defs if d.var == ovar and d.kind in ("assign", "aug") and
+                  [l.id for l in enclosing_loops(fi, d.node)][:1] == [loops[0].id]}
+        reach = cfg.reachable_from(n2, avoid=redefs, edge_filter=lambda a, b, l: l != "exc")
+        ok = bool(redefs) and loops[0].id not in reach
+        (obs.append(ob_ok(oid, fi, c2, construct="chain edge order is replaced inside the copy loop", instance="copy-order",
+                          reason="only the first copy is joined with the order written in front of the node; the copies are joined to each other with the following order")) if ok else
+         obs.append(ob_fail(oid, fi, c2, construct="chain edge order %s is not updated between copies" % ovar, instance="copy-order",
+                            reason="every copy of a multiplied node is joined with the bond order written in front of the node (the written-out form joins the copies by single bonds)")))
+    else:
+        obs.append(ob_undecided(oid, fi, call, construct="chain edge in the node copy loop", instance="copy-order", reason="cannot find add_edge(prev, current, order=<name>) in the copy loop"))
     # branch loop: range(0, int(...) - 1)
     ebs = fl.calls_to("read_cgsmiles:_expand_branch")
     need(ebs, "anchor vanished: read_cgsmiles no longer calls _expand_branch", fi)
